@@ -25,14 +25,17 @@ def lenD : Len := fun a b => (sqrtInterval (sqLen a b)).1
 
 def exactSeg (a b : Pt) : Bool := (exactSqrt? (sqLen a b)).isSome
 
-/-- is `q` a binary64 value (normal range assumed: dyadic with a significand of ≤ 53 bits)? -/
+/-- is `q` exactly a finite binary64 value (normal or subnormal): dyadic, a significand of ≤ 53 bits, lowest
+bit at or above 2^-1074, magnitude below 2^1024? (Without the range clauses an intermediate that underflows —
+`f64::MIN_POSITIVE` times a 2^-60-scale difference — was taken for exact.) -/
 def isF64 (q : Rat) : Bool :=
   let n := q.num.natAbs
   let d := q.den
   if n == 0 then true else
-  let pow2 := d &&& (d - 1) == 0
+  let k := Nat.log2 d
+  if d != 2 ^ k then false else
   let bits := Nat.log2 n + 1
-  pow2 && (bits ≤ 53 || n % 2 ^ (bits - 53) == 0)
+  (bits ≤ 53 || n % 2 ^ (bits - 53) == 0) && k ≤ 1074 && bits ≤ 1024 + k
 
 /-- the f64 evaluation `hypot(a.x - b.x, a.y - b.y)` is exact: both differences and the
 (rational) root are binary64 values -/
